@@ -31,6 +31,7 @@ def run(chk):
 
     chk.attempt(r03a, chk, 'R18.e')
     chk.attempt(r03b, chk, 'R18.f')
+    chk.attempt(r18j, chk)
 
 
 def r18a(chk, rid='R18.a'):
@@ -97,11 +98,27 @@ def r18b(chk, rid='R18.b'):
     chk.ob(rid, SER, 'CSSSerializer.do_css_Value', f'all {n} unit cases evaluated', True)
 
 
+def module_global(m, name):
+    """Value of a module-level name, by evaluating the module's top-level statements (a table may be a
+    literal or be built by code at import time)."""
+    import ast as _ast
+
+    from sa.absint import Evaluator, Raised
+
+    body = [st for st in m.tree.body if not isinstance(st, (_ast.Import, _ast.ImportFrom, _ast.FunctionDef, _ast.ClassDef))]
+    fn = _ast.FunctionDef(name='_module', args=_ast.arguments(posonlyargs=[], args=[], kwonlyargs=[], kw_defaults=[], defaults=[]), body=body + [_ast.Return(value=_ast.Name(id=name, ctx=_ast.Load()))], decorator_list=[], lineno=1, col_offset=0)
+    _ast.fix_missing_locations(fn)
+    got = Evaluator(fn, module=m).run()
+    if isinstance(got, Raised):
+        raise AnalysisError(f'{m.rel}: evaluating the module for {name} ends in {got!r}')
+    return got
+
+
 def r18c(chk, rid='R18.c'):
-    chk.rule(rid, 'colour table consistency: the gray/grey spelling pairs are equal, aqua=cyan, fuchsia=magenta, every channel is an int in 0..255 and alpha is 1.0 except for transparent; the CSS 2.1 colour keywords have their specification values')
+    chk.rule(rid, 'colour table consistency: the gray/grey spelling pairs are equal, aqua=cyan, fuchsia=magenta, every channel is an int in 0..255 and alpha is 1.0 except for transparent; the CSS 2.1 colour keywords and all 147 extended colour keywords have their specification values (the table is obtained by evaluating the module, so it may be a literal or be built at import time)')
     m = chk.repo.mod(COLORS)
-    table = literal(m.global_assign('COLORS'), 'COLORS')
-    if len(table) < 140:
+    table = module_global(m, 'COLORS')
+    if not isinstance(table, dict) or len(table) < 140:
         raise AnalysisError(f'colour table has only {len(table)} entries')
     chk.ob(rid, COLORS, 'COLORS', f'{len(table)} entries, all lower-case names', all(k == k.lower() for k in table), '')
     bad = [k for k, v in table.items() if not (isinstance(v, tuple) and len(v) == 4 and all(isinstance(c, int) and 0 <= c <= 255 for c in v[:3]) and isinstance(v[3], float) and (v[3] == 1.0 or k == 'transparent'))]
@@ -114,6 +131,14 @@ def r18c(chk, rid='R18.c'):
     for k, rgb in CSS21_COLORS.items():
         chk.ob(rid, COLORS, 'COLORS', f'{k} = {rgb}', table.get(k, (None,))[:3] == rgb, f'table says {table.get(k)}')
     chk.ob(rid, COLORS, 'COLORS', 'transparent is (0, 0, 0, 0.0)', table.get('transparent') == (0, 0, 0, 0.0), str(table.get('transparent')))
+    # the 147 extended colour keywords of CSS Color Level 3 (SVG), typed into the checker
+    from .svgcolors import T as SVG
+
+    wrong = sorted(k for k in SVG if tuple(table.get(k, ())[:3]) != SVG[k])
+    chk.ob(rid, COLORS, 'COLORS', f'all {len(SVG)} extended colour keywords have their specification values', not wrong,
+           '; '.join(f'{k}: table says {table.get(k)}, specified {SVG[k]}' for k in wrong[:3]) + f' ({len(wrong)} keywords): the typed channels of the keyword denote another colour than its name')
+    extra = sorted(set(table) - set(SVG) - {'transparent'})
+    chk.ob(rid, COLORS, 'COLORS', 'the table holds the extended colour keywords and transparent, nothing else', not extra, f'{extra[:5]}')
 
 
 def r18d(chk, rid='R18.d'):
@@ -329,3 +354,41 @@ def r18i(chk, rid='R18.i'):
     for token, want in (('url(a.png)', 'a.png'), ('url( a.png )', 'a.png'), ('url("a b")', 'a b'), ("url('a b')", 'a b'), ('url("a\\"")', 'a"'), ('url("\\"a")', '"a'), ("url('it\\'s')", "it's"), ('url("")', ''), ('url()', ''), ('URL("x")', 'x'), ('url("a\'b")', "a'b")):
         got = Evaluator(r, module=m).run(uri=token)
         chk.ob(rid, 'cssutils/helper.py', 'urivalue', f'the content of {token} is {want!r}', got == want, f'read as {got!r}')
+
+
+def r18j(chk, rid='R18.j'):
+    chk.rule(rid, 'typed colour channels, decided by evaluation: the part of ColorValue._setCssText behind the production parse is evaluated on its syntax tree for the parse results of #rgb, #rrggbb, a colour keyword, rgb()/rgba() with numbers and with percentages, hsl()/hsla() at the anchor hues - with alpha 0, 0.0, 0.5 and 1 where the notation has one: red, green, blue are the channels the notation denotes and alpha is the alpha that was written (1.0 where the notation has none)')
+    chk.assume('R18.j: the production parse is replaced by its result (function name item, one value item per component); colorsys is the interpreter\'s')
+    from sa.absint import Evaluator, Obj, Raised, Record
+
+    vm = chk.repo.mod('cssutils/css/value.py')
+    fn = vm.get('ColorValue._setCssText')
+    table = module_global(chk.repo.mod(COLORS), 'COLORS')
+    VAL = Record(NUMBER='NUMBER', PERCENTAGE='PERCENTAGE', DIMENSION='DIMENSION', IDENT='IDENT')
+
+    def comp(v, pct=False):
+        return Record(type=None, value=Record(type='PERCENTAGE' if pct else 'NUMBER', value=v))
+
+    def func(name, comps):
+        return [Record(type='FUNCTION', value=name)] + [comp(v, p) for v, p in comps] + [Record(type='CHAR', value=')')]
+
+    cases = [('#f00', [Record(type='HASH', value='#f00')], (255, 0, 0, 1.0)), ('#0a0B0c', [Record(type='HASH', value='#0a0B0c')], (10, 11, 12, 1.0)),
+             ('Navy', [Record(type='IDENT', value='Navy')], (0, 0, 128, 1.0)), ('transparent', [Record(type='IDENT', value='transparent')], (0, 0, 0, 0.0)),
+             ('rgb(1, 2, 3)', func('rgb(', [(1, False), (2, False), (3, False)]), (1, 2, 3, 1.0)), ('rgb(100%, 0%, 50%)', func('rgb(', [(100, True), (0, True), (50, True)]), (255, 0, 127, 1.0)),
+             ('hsl(0, 100%, 50%)', func('hsl(', [(0, False), (100, True), (50, True)]), (255, 0, 0, 1.0)), ('hsl(120, 100%, 50%)', func('hsl(', [(120, False), (100, True), (50, True)]), (0, 255, 0, 1.0)),
+             ('hsl(240, 100%, 50%)', func('hsl(', [(240, False), (100, True), (50, True)]), (0, 0, 255, 1.0)), ('hsl(0, 0%, 100%)', func('hsl(', [(0, False), (0, True), (100, True)]), (255, 255, 255, 1.0))]
+    for alpha in (0, 0.0, 0.5, 1):
+        cases.append((f'rgba(1, 2, 3, {alpha})', func('rgba(', [(1, False), (2, False), (3, False), (alpha, False)]), (1, 2, 3, alpha)))
+        cases.append((f'hsla(120, 100%, 50%, {alpha})', func('hsla(', [(120, False), (100, True), (50, True), (alpha, False)]), (0, 255, 0, alpha)))
+    bad = []
+    for label, seq, want in cases:
+        me = Obj(_checkReadonly=lambda: None, type='COLOR_VALUE', COLORS=table, wellformed=None, _colorType=None, _red=None, _green=None, _blue=None, _alpha=None, _setSeq=lambda sq: None,
+                 _prods=Record(FUNCTION='FUNCTION', HASH='HASH', IDENT='IDENT', NUMBER='NUMBER', PERCENTAGE='PERCENTAGE'), _log=Record(error=lambda *a, **k: None))
+        intr = {'ProdParser().parse': lambda *a, seq=seq, **k: (True, seq, {}, None), 'Sequence': lambda *a, **k: None, 'Choice': lambda *a, **k: None, 'Prod': lambda *a, **k: None,
+                'PreDef': Record(unary=lambda **k: None, number=lambda **k: None, percentage=lambda **k: None, comma=lambda **k: None, funcEnd=lambda **k: None, hexcolor=lambda **k: None, S=lambda **k: None),
+                'Value': VAL, 'self._log.error': me._log.error}
+        res = Evaluator(fn, intrinsics=intr, module=vm, cls='ColorValue').run(self=me, cssText=label)
+        got = (me._red, me._green, me._blue, me._alpha)
+        if isinstance(res, Raised) or me.wellformed is not True or got != want or type(got[3]) not in (int, float):
+            bad.append(f'{label}: channels {got}' + (f' ({res!r})' if isinstance(res, Raised) else '') + f', denoted {want}')
+    chk.ob(rid, 'cssutils/css/value.py', 'ColorValue._setCssText', f'all {len(cases)} colours have the channels and the alpha their notation denotes', not bad, '; '.join(bad[:3]))
